@@ -53,3 +53,44 @@ func VHOnceMany() {
 	}
 	vCover("once many done")
 }
+
+// VHOnceManyValues: NV (200, thorough 2000) Once values one after the other in one process, each
+// with a slow winner and a second caller that arrives while the winner's function runs - so
+// that anything shared between Once values (pooled gates, arenas, free lists of waiter records)
+// is recycled many times over. Every round: the second caller waits, then both return the
+// winner's value; the second caller's function never runs.
+func VHOnceManyValues() {
+	nv := vParam("NV")
+	arity := vChoose("arity", 3)
+	for round := 0; round < nv; round++ {
+		var o1 Once1[int]
+		var o2 Once2[int, int]
+		var o3 Once3[int, int, int]
+		gate := make(chan struct{})
+		calls, done := 0, false
+		want := 1000 + round
+		var res [2]int
+		var ret [2]bool
+		for c := 0; c < 2; c++ {
+			c := c
+			vGo(func() {
+				switch arity {
+				case 0:
+					res[c] = o1.Do(func() int { calls++; <-gate; done = true; return want })
+				case 1:
+					res[c], _ = o2.Do(func() (int, int) { calls++; <-gate; done = true; return want, 0 })
+				case 2:
+					res[c], _, _ = o3.Do(func() (int, int, int) { calls++; <-gate; done = true; return want, 0, 0 })
+				}
+				vAssert(done, "many Once values: Do returns only after the one invocation has completed")
+				ret[c] = true
+			})
+		}
+		vAssert(!vWait() && !ret[0] && !ret[1], "many Once values: both callers wait while the invocation runs")
+		vAssert(calls == 1, "many Once values: one function has been started")
+		close(gate)
+		vAssert(vWait() && ret[0] && ret[1], "many Once values: both callers return once it has completed")
+		vAssert(calls == 1 && res[0] == want && res[1] == want, "many Once values: both get the one invocation's value")
+	}
+	vCover("once many values done")
+}
